@@ -892,6 +892,24 @@ func (r *rec) stmts(list []ast.Stmt) []string {
 				if !ok || !r.returnsAbort(is.Body) {
 					r.bad(x, "set temporary %s is not followed by the empty-set abort", name.Name)
 				}
+				// the abort is taken exactly when the set is empty: <temp>.AsSet().Len() == 0
+				okCond := false
+				if be, isBin := unparen(is.Cond).(*ast.BinaryExpr); isBin && be.Op == token.EQL {
+					if lit, isLit := unparen(be.Y).(*ast.BasicLit); isLit && lit.Value == "0" {
+						if lenCall, isCall := unparen(be.X).(*ast.CallExpr); isCall {
+							if ls, isSel := unparen(lenCall.Fun).(*ast.SelectorExpr); isSel && ls.Sel.Name == "Len" {
+								if asSet, isCall2 := unparen(ls.X).(*ast.CallExpr); isCall2 && r.isMethod(asSet, pkgTLA, "Value", "AsSet") {
+									if r.obj(unparen(asSet.Fun).(*ast.SelectorExpr).X) == obj {
+										okCond = true
+									}
+								}
+							}
+						}
+					}
+				}
+				if !okCond || is.Else != nil {
+					r.bad(is, "the empty-set abort of %s is not guarded by %s.AsSet().Len() == 0", name.Name, name.Name)
+				}
 				ds, ok := list[i+2].(*ast.DeclStmt)
 				if !ok {
 					r.bad(x, "set temporary %s is not followed by the element selection", name.Name)
